@@ -6,6 +6,7 @@ package main
 // case header (want type, number of labels) so that a case replays from its text.
 
 import (
+	stdjson "encoding/json"
 	"fmt"
 
 	"github.com/hashicorp/hcl/v2"
@@ -126,4 +127,31 @@ func decodeBody(ci *caseInput, body hcl.Body, ctx *hcl.EvalContext) hcl.Diagnost
 	}
 	_, diags := hcldec.Decode(body, spec, ctx)
 	return diags
+}
+
+// genJSON: the expression in JSON syntax — a template string, an object with
+// template keys (duplicates, marked keys, non-string keys), an array.
+func genJSON(r *hv.Rng, ci *caseInput, cg *cgen, e string) {
+	ci.mode = "json"
+	q := func(tmpl string) string {
+		b, _ := stdjson.Marshal(tmpl)
+		return string(b)
+	}
+	cg.memo = map[string]string{}
+	x := func(shape string) string { return cg.expand(shape, "") }
+	switch r.Intn(8) {
+	case 0, 1, 2:
+		ci.src = q("${" + e + "}")
+	case 3:
+		ci.src = q(x(r.Pick("a ${%S} %{ for x in %L }${x}%{ endfor }", "%{ for k, x in %O }${k}${x + 1}%{ endfor }", "${%S}${null}", "%{ if %S }a%{ endif }", "pre-${"+e+"}")))
+	case 4:
+		k := q(x("${%S1}"))
+		ci.src = "{" + k + ": 1, " + k + ": 2}"
+	case 5:
+		ci.src = "{" + q(x(r.Pick("${%S}", "${%N}", "${%L}", "${null}", "${%K}", "k${%S}", "${%S}${%S}"))) + ": " + q("${"+e+"}") + ", " + q(x("${%S}")) + ": [" + q(x("${%N}")) + "]}"
+	case 6:
+		ci.src = "[" + q("${"+e+"}") + ", " + q(x("${%S}")) + ", {" + q(x("${%S1}")) + ": null, " + q(x("${%S1}")) + ": 1}]"
+	default:
+		ci.src = "{\"a\": {" + q(x("${%S}")) + ": " + q("${"+e+"}") + "}, \"b\": " + q(x("%{ for x in %L }${x.zz}%{ endfor }")) + "}"
+	}
 }
